@@ -566,6 +566,10 @@ class C15(Prop):
                     kw["password"] = rng.choice(["secret", None])
                 if rng.random() < 0.45:
                     kw["env"] = rng.choice(ENVS + [None])
+                if rng.random() < 0.35:
+                    kw["watchers"] = rng.choice(POOL["watchers"] + [{"list": []}, None])
+                if rng.random() < 0.25:
+                    kw["timeout"] = rng.choice([None, 4, 8])
                 out.append(["sudo", rng.choice(["whoami", "apt x", "id", "false z"]), kw])
         return out
 
@@ -583,6 +587,8 @@ class C15(Prop):
             run["warn"] = True
         if rng.random() < 0.03:
             run["hide"] = "bogus"          # every call is refused
+        if rng.random() < 0.3:
+            run["watchers"] = rng.choice([{"list": ["cw"]}, {"list": ["cw1", "cw2"]}])
         sudo = {}
         if rng.random() < 0.3:
             sudo["user"] = "root2"
